@@ -168,3 +168,5 @@ func trimStack(b []byte) string {
 	}
 	return strings.Join(out, "\n")
 }
+
+func debugStack() []byte { return debug.Stack() }
